@@ -208,6 +208,8 @@ def c04_rf18(run):
     rf_proto.rf16j(run)
     rf_fold.rf38(run)
     rf_fold.rf41(run)
+    rf_inline.rf45(run)
+    rf_inline.rf46(run)
 
 
 def c16_rf16(run):
